@@ -272,6 +272,20 @@ def iter_items_cond(ex, ctx, st, it):
             for i in range(min(min(pos_consts(pos)), len(seq[2])), len(seq[2])):
                 out.append((map_ite_memo(pos, lambda p, i=i: TRUE if p[1] <= i else FALSE), seq[2][i]))
             return out, st
+        if nm in ('TakeWhile', 'SkipWhile'):
+            inner, st = iter_items_cond(ex, ctx, st, it[2][0])
+            out = []
+            run = TRUE if nm == 'TakeWhile' else FALSE       # TakeWhile: every earlier test held; SkipWhile: some test failed
+            for c, x in inner:
+                rx = ex.new_tmp(st, x)
+                p_, st = call_closure(ex, ctx, st, it[2][1], [rx])
+                if nm == 'TakeWhile':
+                    run = mk_and(run, mk_or(mk_not(c), p_))
+                    out.append((mk_and(c, run), x))
+                else:
+                    run = mk_or(run, mk_and(c, mk_not(p_)))
+                    out.append((mk_and(c, run), x))
+            return out, st
         if nm == 'CondSeq':
             seq, conds, pos = it[2]
             pc_ = pos_consts(pos)
@@ -498,6 +512,27 @@ def apply(ex, ctx, st, f, args, dest_ty, term):
         x_, y_ = ex.load(st, args[0]), ex.load(st, args[1])
         ty = ty_of(x_)
         return mk_bin({'lt': 'Lt', 'le': 'Le', 'gt': 'Gt', 'ge': 'Ge', 'eq': 'Eq', 'ne': 'Ne'}[name], x_, y_, ty, 'bool'), st
+    if dpath == 'core::convert::From::from' and path.startswith('core::char::convert::<impl core::convert::From<char> for '):
+        m2_ = path.split(' for ')[-1].split('>')[0]
+        if m2_ in INT_BITS:
+            return mk_cast(args[0], m2_), st
+    if dpath == 'core::cmp::PartialOrd::partial_cmp' and path.startswith('<core::option::Option<T> as core::cmp::PartialOrd>'):
+        # None < Some(_); Some(a) ? Some(b) as a ? b
+        a_ = ex.load(st, args[0])
+        b_ = ex.load(st, args[1])
+        while a_[0] == 'ref':
+            a_ = ex.load(st, a_)
+        while b_[0] == 'ref':
+            b_ = ex.load(st, b_)
+
+        def oo(la, lb):
+            sa_, sb_ = la[1][2] == 1, lb[1][2] == 1
+            if sa_ and sb_:
+                return option_some(lex_cmp(ex, la[2][0], lb[2][0]))
+            if not sa_ and not sb_:
+                return option_some(ordering(ex, 'Equal'))
+            return option_some(ordering(ex, 'Greater' if sa_ else 'Less'))
+        return map_ite(a_, lambda la: map_ite(b_, lambda lb: oo(la, lb))), st
     if path in ('core::char::methods::<impl char>::from_u32', 'core::char::from_u32', 'core::char::convert::from_u32'):
         v_ = args[0]
         ok_ = mk_or(mk_bin('Lt', v_, C(0xD800, 'u32'), 'u32', 'bool'),
@@ -575,6 +610,32 @@ def apply(ex, ctx, st, f, args, dest_ty, term):
                 acc = mk_bin('Mul', acc, a, ty, ty)
             return acc, st
         raise Uncertified("pow with symbolic operands")
+    if int_method('signum'):
+        a = args[0]
+        ty = ty_of(a)
+        return mk_ite(mk_bin('Gt', a, C(0, ty), ty, 'bool'), C(1, ty), mk_ite(mk_bin('Lt', a, C(0, ty), ty, 'bool'), C(-1, ty), C(0, ty))), st
+    if int_method('to_le_bytes') or int_method('to_be_bytes') or int_method('to_ne_bytes'):
+        a = args[0]
+        ty = ty_of(a)
+        nb = INT_BITS[ty] // 8
+        bs = [mk_cast(mk_bin('BitAnd', mk_bin('Shr', a, C(8 * i, 'u32'), ty, ty), C(0xFF, ty), ty, ty), 'u8') for i in range(nb)]
+        if name == 'to_be_bytes':
+            bs = bs[::-1]
+        return agg(('array',), bs), st
+    if int_method('from_le_bytes') or int_method('from_be_bytes') or int_method('from_ne_bytes'):
+        arr = args[0]
+        import re as _re
+        m_ = _re.match(r"core::num::<impl (\w+)>::", path)
+        if arr[0] != 'agg' or not m_ or m_.group(1) not in INT_BITS:
+            raise Uncertified("%s on %s" % (name, arr[0]))
+        ty = m_.group(1)
+        bs = list(arr[2])
+        if name == 'from_be_bytes':
+            bs = bs[::-1]
+        out_ = C(0, ty)
+        for i, b_ in enumerate(bs):
+            out_ = mk_bin('BitOr', out_, mk_bin('Shl', mk_cast(b_, ty), C(8 * i, 'u32'), ty, ty), ty, ty)
+        return out_, st
     if int_method('swap_bytes') or int_method('reverse_bits'):
         a = args[0]
         ty = ty_of(a)
@@ -1571,6 +1632,29 @@ def apply(ex, ctx, st, f, args, dest_ty, term):
             r, st = call_closure(ex, ctx, st, args[1], [items[i]])
             res = mk_ite(r, option_some(C(i, 'usize')), res)      # the last match wins
         return res, st
+    if dpath in ('core::iter::DoubleEndedIterator::rfind',) or name == 'rfind':
+        items, st = iter_items(ex, ctx, st, args[0])
+        res = OPTION_NONE
+        for x in items:                                   # the last match wins
+            rx = ex.new_tmp(st, x)
+            r, st = call_closure(ex, ctx, st, args[1], [rx])
+            res = mk_ite(r, option_some(x), res)
+        return res, st
+    if dpath == 'core::iter::Iterator::reduce':
+        citems, st = iter_items_cond(ex, ctx, st, args[0])
+        acc = OPTION_NONE
+        for c, x in citems:
+            def step(l, x=x):
+                nonlocal st
+                if l[1][2] == 0:
+                    return option_some(x)
+                r, st = call_closure(ex, ctx, st, args[1], [l[2][0], x])
+                return option_some(r)
+            nxt = gmap(ex, acc, step)
+            acc = nxt if c is TRUE else mk_ite(c, nxt, acc)
+        return acc, st
+    if dpath in ('core::iter::Iterator::take_while', 'core::iter::Iterator::skip_while'):
+        return m_iter('TakeWhile' if name == 'take_while' else 'SkipWhile', args[0], args[1]), st
     if dpath == 'core::iter::Iterator::last':
         citems, st = iter_items_cond(ex, ctx, st, args[0])
         res = OPTION_NONE
